@@ -9,11 +9,15 @@ SPEC = {
     "fuzz": [{"name": "FuzzModel", "seconds": 90}],
     "rule": ("rapid-generated ammo models (1-8 entries: method, RFC 3986 path+query, ordered unique headers, binary/empty/newline- and "
              "'['-bearing bodies, tags with inner single spaces, runs of several spaces, tabs and special characters - never at the ends -, Host; in-file [Header: value] directives at generated "
-             "positions for uri/uripost) rendered into uri / uripost / raw / http-json with layout knobs (blank lines, leading/trailing "
+             "positions for uri/uripost; one header value in three - directives, the entries' own headers, the defaults below - is rich in brackets "
+             "and colons anywhere in it, also at its very ends: `ids[]`, `$.items[0]`, `[1, [2, 3]]`, `a:b::`, free compositions closed by runs of ']' "
+             "or opened by '['; one Host in three is a bracketed IPv6 literal with or without a port) rendered into uri / uripost / raw / http-json with layout knobs (blank lines, leading/trailing "
              "blanks, CRLF, missing final newline, padded lines, inline `uris`, JSON lines / pretty / array) and read for 1-3 passes "
              "through the real provider built by config.DecodeAndValidate on a mem fs, in one case of two with the documented provider option "
              "`preload: true` (the file is loaded into memory by one LoadAmmo pass and replayed from there), so that every format and layout "
-             "is decoded through both reading paths. Non-trivial = >= 2 entries and (a layout knob on, "
+             "is decoded through both reading paths. One case in two configures 1-3 default headers (unique names from the pool of the "
+             "file's own header names, Host among them) through the documented provider option `headers` (list of '[Name: value]' strings) for all four formats; the model "
+             "gives them the lowest priority ('Headers in ammo file have priority'). Non-trivial = >= 2 entries and (a layout knob on, "
              "or a directive after the first entry, or a binary body); distinct = hash of the case."),
     "floors": {"TestDecode/no_final_newline": 0.079, "TestDecode/uripost_zero_body": 0.08, "TestDecode/mid_file_directive": 0.15,
                "TestDecode/json_array": 0.02, "TestDecode/json_pretty": 0.02, "TestDecode/crlf": 0.05, "TestDecode/multi_pass": 0.4,
@@ -23,15 +27,30 @@ SPEC = {
                "TestDecode/tag_inner_blank_run_raw": 0.03, "TestDecode/tag_inner_blank_run_jsonline": 0.03,
                "TestDecode/preload": 0.35, "TestDecode/preload_multi_pass": 0.2, "TestDecode/preload_json_array": 0.009,
                "TestDecode/preload_json_pretty": 0.009, "TestDecode/preload_uri": 0.06, "TestDecode/preload_uripost": 0.06,
-               "TestDecode/preload_raw": 0.06, "TestDecode/preload_jsonline": 0.06, "TestDecode/preload_no_final_newline": 0.04},
+               "TestDecode/preload_raw": 0.06, "TestDecode/preload_jsonline": 0.06, "TestDecode/preload_no_final_newline": 0.04,
+               # "[Name: value]" values with brackets at their very ends / colons inside (in effect for at least one entry), the `headers` option
+               "TestDecode/directive_value_ends_with_bracket": 0.08, "TestDecode/directive_value_ends_with_bracket_uri": 0.035,
+               "TestDecode/directive_value_ends_with_bracket_uripost": 0.035, "TestDecode/directive_value_ends_with_bracket_run": 0.04,
+               "TestDecode/directive_value_starts_with_bracket": 0.06, "TestDecode/directive_value_with_colon": 0.06,
+               "TestDecode/directive_host_ipv6_literal_without_port": 0.008,
+               "TestDecode/config_headers": 0.35, "TestDecode/config_headers_uri": 0.08, "TestDecode/config_headers_uripost": 0.08,
+               "TestDecode/config_headers_raw": 0.07, "TestDecode/config_headers_jsonline": 0.07,
+               "TestDecode/config_header_value_ends_with_bracket": 0.1, "TestDecode/config_header_value_ends_with_bracket_uri": 0.025,
+               "TestDecode/config_header_value_ends_with_bracket_uripost": 0.025, "TestDecode/config_header_value_ends_with_bracket_raw": 0.02,
+               "TestDecode/config_header_value_ends_with_bracket_jsonline": 0.02, "TestDecode/config_header_value_ends_with_bracket_run": 0.045,
+               "TestDecode/config_header_value_with_colon": 0.08, "TestDecode/config_header_host_ipv6_literal_without_port": 0.008,
+               "TestDecode/config_header_overridden_for_some_entries": 0.08, "TestDecode/entry_header_value_ends_with_bracket": 0.15},
     "manifest": {
         "technique": "model-based property testing (rapid): render a generated request model into each ammo format, decode with the real provider, compare; metamorphic over layout",
         "text": ("Each generated model is the oracle for the file rendered from it: the k-th delivered ammo must equal entry k mod E "
                  "(method, request URI, body bytes, tag, Host, effective headers with in-file directives applied in order and forgotten "
-                 "at each pass), exactly passes*E items are delivered, then end of ammo and Run returns nil. Layout variants of the same "
+                 "at each pass; a '[Name: value]' line - in the file or in the `headers` option - is the name up to its first colon and the value "
+                 "between that colon and the closing bracket of the line, blanks around both trimmed, so brackets and colons inside the value, also as its last "
+                 "or first characters, arrive as written; `headers` defaults apply to every entry for which the file defines no header of that name, a default Host "
+                 "to entries without a Host of their own), exactly passes*E items are delivered, then end of ammo and Run returns nil. Layout variants of the same "
                  "model must not change anything, and neither does reading the file with `preload: true`: the same model judges the streamed and the preloaded provider."),
         "note": ("URIs are restricted to characters net/url transmits verbatim; tags do not start/end with blanks (the one space after the URI / size delimits the tag, everything after it up to the trimmed line end is tag text, as is a JSON string); http/json bodies are "
                  "valid UTF-8; header names compared canonically; Content-Length may appear in raw requests."),
     },
-    "assumptions": ["entries a format cannot express are not generated for it (uri: GET without body; uripost: POST; raw/json: no in-file directives)"],
+    "assumptions": ["the names in the `headers` option are unique (what several defaults of one name mean is not documented)", "entries a format cannot express are not generated for it (uri: GET without body; uripost: POST; raw/json: no in-file directives)"],
 }
